@@ -334,3 +334,33 @@ func FlatStruct(c chan int) (hit bool) {
 	}()
 	return false
 }
+
+type flatEmitter struct {
+	seen  map[int]bool
+	yield func(int) bool
+}
+
+func (e *flatEmitter) emit(v int) bool {
+	if e.seen[v] {
+		return true
+	}
+	e.seen[v] = true
+	return e.yield(v)
+}
+
+// FlatMethod keeps the state of an enumeration in a struct whose method is
+// called from several places (where an earlier version had a local closure
+// named emit).
+func FlatMethod(a, b []int, yield func(int) bool) {
+	e := &flatEmitter{seen: map[int]bool{}, yield: yield}
+	for _, v := range a {
+		if !e.emit(v) {
+			return
+		}
+	}
+	for _, v := range b {
+		if !e.emit(v) {
+			return
+		}
+	}
+}
